@@ -15,6 +15,11 @@ Definition outcome_rel (c : cause) (e : err) : Prop :=
   | CCtx => e = ECtxDeadline \/ e = ECtxCanceled
   end.
 
+(* ... unless the connection refused the closing tag that this very Serve had to
+   write: then the connection's error is what it returns *)
+Definition outcome_rel' (wf : bool) (c : cause) (e : err) : Prop :=
+  outcome_rel c e \/ (wf = true /\ c <> CNone /\ e = EWrite).
+
 Definition outcome_okb (c : cause) (e : err) : bool :=
   match c, e with
   | CPeerClose, ENil | CPeerErr, EStream | CBad, EBad | CHandler, EHandler
@@ -65,7 +70,7 @@ Definition closer_ok (s : state) (i : nat) : Prop :=
   | RCloser => exists n, 10 <= n <= 17 /\ exit_at n a (s_o s) (s_i s)
   | RServe => (loopish (a_code a) = true /\ a_res a = None) \/
               (exists n, n <= 17 /\ exit_at n a (s_o s) (s_i s) /\
-                         a_cause a <> CNone /\ outcome_rel (a_cause a) (a_e a))
+                         a_cause a <> CNone /\ outcome_rel' (o_wfail (s_o s)) (a_cause a) (a_e a))
   end.
 
 Definition ctx_ok (ig : ing) : Prop :=
@@ -111,23 +116,29 @@ Proof. intro H. unfold o_writetag. destruct (o_pend og) eqn:E; cbn; auto. Qed.
 Lemma exit_step : forall n me a og ig o k og' ig' a',
   exit_at n a og ig -> n < 17 -> a_code a = o :: k ->
   exec me o k og ig a = Some (og', ig', a') ->
-  exists n', n < n' <= 17 /\ exit_at n' a' og' ig' /\ a_e a' = a_e a /\ a_cause a' = a_cause a.
+  exists n', n < n' <= 17 /\ exit_at n' a' og' ig' /\
+    (a_e a' = a_e a \/ (o_wfail og = true /\ a_e a' = EWrite)) /\ a_cause a' = a_cause a.
 Proof.
   intros n me a og ig o k og' ig' a' (Hc & Hi & Ho & Hp & Hr & _) Hn Hcode Hex.
   rewrite Hcode in Hc.
-  assert (Hmono : forall x, o_cl og = true -> o_cl (o_writetag (o_setlock x None)) = o_cl (o_writetag (o_setlock x None))) by reflexivity.
   do 17 (destruct n as [|n];
     [ cbn in Hc; injection Hc as -> ->; cbn [exec] in Hex;
       repeat match type of Hex with
              | context [match ?x with _ => _ end] => destruct x eqn:?; try discriminate
              end;
       injection Hex as <- <- <-;
+      unfold first_err; cbn [a_e set_code];
+      try match goal with |- context [match a_e a with _ => _ end] => destruct (a_e a) eqn:Ee end;
+      try match goal with H : _ && _ = true |- _ => apply andb_prop in H; destruct H as [Hpe Hwf] end;
       (* the jump of a failed OTest lands on the OUnlock at 7 *)
-      first [ exists 7; (split; [lia|]); (split; [|split; reflexivity]); unfold exit_at; cbn;
+      first [ exists 7; (split; [lia|]); (split; [|split; [left; reflexivity|reflexivity]]); unfold exit_at; cbn;
               (split; [reflexivity|]);
               (split; [intros; lia|]); (split; [intros; lia|]); (split; [intros; lia|]);
               (split; [intros; apply Hr; lia|intros; lia])
-            | match goal with |- exists n', ?m < n' <= _ /\ _ => exists (S m) end; (split; [lia|]); (split; [|split; reflexivity]); unfold exit_at; cbn;
+            | match goal with |- exists n', ?m < n' <= _ /\ _ => exists (S m) end; (split; [lia|]);
+              (split; [|split; [cbn; first [left; reflexivity | left; symmetry; assumption | left; assumption
+                                         | right; split; [assumption|reflexivity]]|reflexivity]]);
+              unfold exit_at; cbn;
               (split; [reflexivity|]);
               (split; [intros H9 Hrole; try lia; try reflexivity; try (apply Hi; [lia|exact Hrole])|]);
               (split; [intros H13; try lia; try apply o_mark_cl; try (rewrite ?o_writetag_cl; apply Ho; lia)|]);
@@ -225,13 +236,16 @@ Proof.
   - apply Hp. apply H4. assumption.
 Qed.
 
+Lemma outcome_rel'_mono wf wf' c e : (wf = true -> wf' = true) -> outcome_rel' wf c e -> outcome_rel' wf' c e.
+Proof. intros H [A|(A & B & C)]; [left; exact A|right; auto]. Qed.
+
 Theorem CINV_step : forall s i s', CINV s -> step s i = Some s' -> CINV s'.
 Proof.
   intros s i s' [Hctx Hall] Hstep. split; [exact (ctx_ok_step s i s' Hctx Hstep)|].
-  destruct (step_mono s i s' Hstep) as (Mo & Mi & Mp).
+  destruct (step_mono s i s' Hstep) as (Mo & Mi & Mp & Mw).
   pose proof Hstep as Hinv. apply step_inv in Hinv.
   destruct Hinv as (o & k & og & ig & a' & Hcode & Hgate & Hex & ->).
-  cbn [s_o s_i] in Mo, Mi, Mp.
+  cbn [s_o s_i] in Mo, Mi, Mp, Mw.
   intro j. unfold closer_ok. cbn [s_a s_o s_i].
   destruct (Nat.eq_dec j i) as [->|Hn].
   - rewrite upd_same. rewrite (exec_role _ _ _ _ _ _ _ _ _ Hex).
@@ -245,18 +259,22 @@ Proof.
       exists n'. split; [lia|exact He'].
     + (* Serve *)
       destruct Hi as [[Hl Hr]|(n & Hn & He & Hc & Hrel)].
-      * exact (loop_step i _ _ _ o k og ig a' Hctx Hl Hr Hcode Hex).
+      * destruct (loop_step i _ _ _ o k og ig a' Hctx Hl Hr Hcode Hex) as [L|(n & Hn & He & Hc & Hrel)]; [left; exact L|].
+        right. exists n. split; [exact Hn|]. split; [exact He|]. split; [exact Hc|left; exact Hrel].
       * assert (n < 17).
         { destruct (Nat.eq_dec n 17) as [->|]; [|lia]. destruct He as [Hc' _]. cbn in Hc'. congruence. }
         destruct (exit_step n i _ _ _ o k og ig a' He H Hcode Hex) as (n' & Hn' & He' & Ee & Ec).
-        right. exists n'. split; [lia|]. split; [exact He'|]. rewrite Ee, Ec. split; assumption.
+        right. exists n'. split; [lia|]. split; [exact He'|]. rewrite Ec. split; [exact Hc|].
+        destruct Ee as [Ee|[Ew Ee]].
+        -- rewrite Ee. exact (outcome_rel'_mono _ _ _ _ Mw Hrel).
+        -- right. split; [exact (Mw Ew)|]. split; [exact Hc|exact Ee].
   - rewrite upd_other by exact Hn.
     pose proof (Hall j) as Hj. unfold closer_ok in Hj.
     destruct (a_role (s_a s j)); [exact I| |].
     + destruct Hj as (n & Hn' & He). exists n. split; [exact Hn'|].
       exact (exit_at_mono n _ s (mkS og ig (upd (s_a s) i a')) He Mo Mi Mp).
-    + destruct Hj as [Hl|(n & Hn' & He & Hc)]; [left; exact Hl|].
-      right. exists n. split; [exact Hn'|]. split; [|exact Hc].
+    + destruct Hj as [Hl|(n & Hn' & He & Hc & Hrel)]; [left; exact Hl|].
+      right. exists n. split; [exact Hn'|]. split; [|split; [exact Hc|exact (outcome_rel'_mono _ _ _ _ Mw Hrel)]].
       exact (exit_at_mono n _ s (mkS og ig (upd (s_a s) i a')) He Mo Mi Mp).
 Qed.
 
@@ -285,7 +303,7 @@ Qed.
 
 Lemma serve_returned : forall s i e, CINV s -> a_role (s_a s i) = RServe -> a_res (s_a s i) = Some e ->
   (o_cl (s_o s) = true /\ o_pend (s_o s) = false) /\ i_cl (s_i s) = true /\
-  a_cause (s_a s i) <> CNone /\ outcome_rel (a_cause (s_a s i)) e.
+  a_cause (s_a s i) <> CNone /\ outcome_rel' (o_wfail (s_o s)) (a_cause (s_a s i)) e.
 Proof.
   intros s i e HC Hrole Hres. pose proof HC as [_ Hall]. pose proof (Hall i) as Hi. unfold closer_ok in Hi.
   rewrite Hrole in Hi. destruct Hi as [[_ Hr]|(n & Hn & (H1 & H2 & H3 & H4 & H5 & H6) & Hc & Hrel)]; [congruence|].
